@@ -15,6 +15,7 @@
 //!   l                                    decode the newest version
 //!   r <xid> <xmin> <xmax|-> <active|-> <aborted|->     decode for that snapshot
 //!   c <xid> <xmin> <xmax|-> <active|-> <aborted|-> <ids>   is_committed_before_snapshot for each id
+//!   i <xid> <xmin> <xmax|-> <active|-> <aborted|-> <tmin> <tmax|->   Snapshot::is_tuple_visible (unused by the readers)
 //! Output: one field per op, joined by ` | `.
 use super::{Case, Engine, Tier};
 use crate::rng::Rng;
@@ -132,6 +133,7 @@ enum Op {
     Last,
     Read(vt::VSnapshot),
     Committed(vt::VSnapshot, Vec<u64>),
+    TupleVisible(vt::VSnapshot, u64, Option<u64>),
 }
 
 fn parse_op(s: &str) -> Option<Op> {
@@ -179,6 +181,10 @@ fn parse_op(s: &str) -> Option<Op> {
                 return None;
             }
             Op::Committed(parse_snapshot(&[a, b, c, d, e])?, ids)
+        }
+        ["i", a, b, c, d, e, tmin, tmax] => {
+            let tmax = if *tmax == "-" { None } else { Some(parse_u64(tmax)?) };
+            Op::TupleVisible(parse_snapshot(&[a, b, c, d, e])?, parse_u64(tmin)?, tmax)
         }
         _ => return None,
     })
@@ -241,6 +247,10 @@ impl Engine for TupleEngine {
             if let Op::Committed(s, ids) = &op {
                 let v: Vec<&str> = ids.iter().map(|i| if s.is_committed_before(*i) { "1" } else { "0" }).collect();
                 out.push(format!("cb {}", v.join("")));
+                continue;
+            }
+            if let Op::TupleVisible(s, tmin, tmax) = &op {
+                out.push(format!("vis {}", if s.is_tuple_visible(*tmin, *tmax) { 1 } else { 0 }));
                 continue;
             }
             let Some(state) = st.as_mut() else {
@@ -326,7 +336,7 @@ impl Engine for TupleEngine {
                         Err(e) => out.push(e.into()),
                     }
                 }
-                Op::Build(..) | Op::Committed(..) => unreachable!(),
+                Op::Build(..) | Op::Committed(..) | Op::TupleVisible(..) => unreachable!(),
             }
         }
         let gating: Vec<String> = out
@@ -661,6 +671,20 @@ mod casegen {
             let tags: &[&str] =
                 if none { &["committed-before", "xmax-none"] } else { &["committed-before", "clean-region"] };
             out.push(Case::new(format!("t c {} {}", s, probe.join(",")), tags));
+            // is_tuple_visible for every (creator, deleter) pair of a few ids, incl. the reader's own
+            let xid: u64 = s.split(' ').next().unwrap().parse().unwrap();
+            let mut ids: Vec<u64> = ids.iter().take(3).copied().collect();
+            ids.push(xid);
+            let mut ops = Vec::new();
+            for a in &ids {
+                ops.push(format!("i {} {} -", s, a));
+                for b in &ids {
+                    ops.push(format!("i {} {} {}", s, a, b));
+                }
+            }
+            let tags2: &[&str] =
+                if none { &["tuple-visible", "xmax-none"] } else { &["tuple-visible", "clean-region"] };
+            out.push(Case::new(format!("t {}", ops.join(" ; ")), tags2));
         }
         out
     }
@@ -670,7 +694,7 @@ mod casegen {
         let mut cases = gen_edge(rng);
         // the grid of the property text: 1-3 keys, 0-4 values, <= 3 updates, small values, every creator state
         let grid = Shape { max_keys: 3, max_vals: 4, max_updates: 3, alphabet: &['U', 'i', 'd', 't', 'b'], small_values: true };
-        for _ in 0..6000 * scale {
+        for _ in 0..10000 * scale {
             cases.push(gen_chain(rng, &grid, "grid"));
         }
         // sampled beyond: up to 12 value columns of every kind, up to 8 updates, long texts
@@ -681,7 +705,7 @@ mod casegen {
             alphabet: &['b', 'i', 'I', 'u', 'U', 'f', 'd', 't', 't'],
             small_values: false,
         };
-        for _ in 0..1500 * scale {
+        for _ in 0..2500 * scale {
             cases.push(gen_chain(rng, &large, "large"));
         }
         cases
